@@ -12,28 +12,28 @@ import (
 )
 
 var (
-	annKeys   = []string{"k0", "k1", "k2", "k3"}
-	annVals   = []string{"a0", "a1", "", "x=y", "-v"}
-	envNames  = []string{"FOO", "BAR", "BAZ", "QUX"}
-	envVals   = []string{"1", "two", "", "x=y", "a b", "-z"}
-	mntDests  = []string{"/", "/a", "/a/b", "/a/b/c", "/b", "/a-b", "/a/c", "/etc/x", "/b/c/d/e", "/a.b"}
-	mntSrcs   = []string{"/src/0", "/src/1", "/tmp", "/", "tmpfs", "", hostShared, hostSlave, hostPrivate}
+	annKeys  = []string{"k0", "k1", "k2", "k3"}
+	annVals  = []string{"a0", "a1", "", "x=y", "-v"}
+	envNames = []string{"FOO", "BAR", "BAZ", "QUX"}
+	envVals  = []string{"1", "two", "", "x=y", "a b", "-z"}
+	mntDests = []string{"/", "/a", "/a/b", "/a/b/c", "/b", "/a-b", "/a/c", "/etc/x", "/b/c/d/e", "/a.b"}
+	mntSrcs  = []string{"/src/0", "/src/1", "/tmp", "/", "tmpfs", "", hostShared, hostSlave, hostPrivate}
 	// mount sources under the private mount namespace bin/check sets up for this check
 	// (shared, slave of it, private); elsewhere they measure as private like any other path
 	hostShared  = "/run/verifmnt/sh"
 	hostSlave   = "/run/verifmnt/sl"
 	hostPrivate = "/run/verifmnt/pr"
-	mntTypes  = []string{"bind", "tmpfs", ""}
-	mntOpts   = []string{"ro", "rw", "rbind", "nosuid", "rprivate", "relabel"}
-	devPaths  = []string{"/dev/a", "/dev/b", "/dev/c", "/dev/d"}
-	devTypes  = []string{"c", "b", "u", "p", ""}
-	hookPaths = []string{"/bin/h0", "/bin/h1", "/usr/bin/h2"}
-	rlTypes   = []string{"RLIMIT_NOFILE", "RLIMIT_NPROC", "RLIMIT_CORE"}
-	pageSizes = []string{"2MB", "1GB", "64KB"}
-	uniKeys   = []string{"memory.high", "cpu.weight", "io.max", "pids.max"}
-	uniVals   = []string{"max", "100", "", "8:0 rbps=1"}
-	cdiNames  = []string{"vendor.com/dev=d0", "vendor.com/dev=d1", "x.org/net=eth0"}
-	argWords  = []string{"sh", "-c", "sleep 1", "x", "--flag=1"}
+	mntTypes    = []string{"bind", "tmpfs", ""}
+	mntOpts     = []string{"ro", "rw", "rbind", "nosuid", "rprivate", "relabel"}
+	devPaths    = []string{"/dev/a", "/dev/b", "/dev/c", "/dev/d"}
+	devTypes    = []string{"c", "b", "u", "p", ""}
+	hookPaths   = []string{"/bin/h0", "/bin/h1", "/usr/bin/h2"}
+	rlTypes     = []string{"RLIMIT_NOFILE", "RLIMIT_NPROC", "RLIMIT_CORE"}
+	pageSizes   = []string{"2MB", "1GB", "64KB"}
+	uniKeys     = []string{"memory.high", "cpu.weight", "io.max", "pids.max"}
+	uniVals     = []string{"max", "100", "", "8:0 rbps=1"}
+	cdiNames    = []string{"vendor.com/dev=d0", "vendor.com/dev=d1", "x.org/net=eth0"}
+	argWords    = []string{"sh", "-c", "sleep 1", "x", "--flag=1"}
 )
 
 func defaultExt() ExtJ {
@@ -581,11 +581,13 @@ func systematic(seed int64) []namedIn {
 		"mem-others": func(x *ResJ, _ *LinuxJ, _ *AdjJ) {
 			x.Memory = &MemJ{Reservation: p64(5), Swap: p64(6), Kernel: p64(7), KernelTCP: p64(8), Swappiness: pu64(9)}
 		},
-		"mem-empty":   func(x *ResJ, _ *LinuxJ, _ *AdjJ) { x.Memory = &MemJ{} },
-		"huge-old":    func(x *ResJ, _ *LinuxJ, _ *AdjJ) { x.Hugepages = []HugeJ{{"2MB", rU64(r)}} },
-		"huge-new":    func(x *ResJ, _ *LinuxJ, _ *AdjJ) { x.Hugepages = []HugeJ{{"1GB", rU64(r)}} },
-		"huge-twice":  func(x *ResJ, _ *LinuxJ, _ *AdjJ) { x.Hugepages = []HugeJ{{"1GB", 1}, {"2MB", 2}, {"1GB", 3}} },
-		"unified":     func(x *ResJ, _ *LinuxJ, _ *AdjJ) { x.Unified = map[string]string{"memory.high": "1", "cpu.weight": "2", "io.max": "3"} },
+		"mem-empty":  func(x *ResJ, _ *LinuxJ, _ *AdjJ) { x.Memory = &MemJ{} },
+		"huge-old":   func(x *ResJ, _ *LinuxJ, _ *AdjJ) { x.Hugepages = []HugeJ{{"2MB", rU64(r)}} },
+		"huge-new":   func(x *ResJ, _ *LinuxJ, _ *AdjJ) { x.Hugepages = []HugeJ{{"1GB", rU64(r)}} },
+		"huge-twice": func(x *ResJ, _ *LinuxJ, _ *AdjJ) { x.Hugepages = []HugeJ{{"1GB", 1}, {"2MB", 2}, {"1GB", 3}} },
+		"unified": func(x *ResJ, _ *LinuxJ, _ *AdjJ) {
+			x.Unified = map[string]string{"memory.high": "1", "cpu.weight": "2", "io.max": "3"}
+		},
 		"pids":        func(x *ResJ, _ *LinuxJ, _ *AdjJ) { x.Pids = p64(rI64(r)) },
 		"pids-zero":   func(x *ResJ, _ *LinuxJ, _ *AdjJ) { x.Pids = p64(0) },
 		"blockio":     func(x *ResJ, _ *LinuxJ, _ *AdjJ) { x.Blockio = pstr("silver") },
@@ -612,8 +614,14 @@ func systematic(seed int64) []namedIn {
 			a.Rlimits = []RlimitJ{{"RLIMIT_NOFILE", 10, 5}, {"RLIMIT_NOFILE", 20, 6}, {"RLIMIT_CORE", 0, 0}}
 			a.Linux = nil
 		},
-		"cdi":     func(_ *ResJ, _ *LinuxJ, a *AdjJ) { a.CDI = []string{"vendor.com/dev=d1", "vendor.com/dev=d0", "vendor.com/dev=d1"}; a.Linux = nil },
-		"cdi-bad": func(_ *ResJ, _ *LinuxJ, a *AdjJ) { a.CDI = []string{"vendor.com/dev=d1", "vendor.com/dev=broken"}; a.Linux = nil },
+		"cdi": func(_ *ResJ, _ *LinuxJ, a *AdjJ) {
+			a.CDI = []string{"vendor.com/dev=d1", "vendor.com/dev=d0", "vendor.com/dev=d1"}
+			a.Linux = nil
+		},
+		"cdi-bad": func(_ *ResJ, _ *LinuxJ, a *AdjJ) {
+			a.CDI = []string{"vendor.com/dev=d1", "vendor.com/dev=broken"}
+			a.Linux = nil
+		},
 		"mnt-prop": func(_ *ResJ, _ *LinuxJ, a *AdjJ) {
 			a.Mounts = []MountJ{{"/p", "bind", "/src/0", []string{"rprivate"}}, {"/q", "bind", "/src/1", []string{"ro"}}}
 			a.Linux = nil
@@ -685,6 +693,108 @@ func systematic(seed int64) []namedIn {
 		e := defaultExt()
 		e.NoInjector, e.NoBlockio, e.NoRdt = ext.NoInjector, ext.NoBlockio, ext.NoRdt
 		out = append(out, namedIn{fmt.Sprintf("sys-noext-%d", i), In{Kind: "sys", Spec: baseSpec(), Adjust: a, Ext: e, Runs: 30}})
+	}
+	return out
+}
+
+// ---- the runtime's callbacks: WithAnnotationFilter / WithResourceChecker --------------------
+
+var (
+	filterKinds = []string{"nop", "drop", "reject"}
+	filterArgs  = []string{"k", "k1", "-", "-k0", "internal/", "", "k3"}
+	checkKinds  = []string{"ok", "fail", "failPidsGt", "capShares", "setPids", "clearUnified"}
+)
+
+func genCallbacks(r *rand.Rand, e *ExtJ) {
+	if r.Intn(3) > 0 {
+		e.Filter = &CallbackJ{Kind: pick(r, filterKinds), Arg: pick(r, filterArgs)}
+	}
+	if e.Filter == nil || r.Intn(3) > 0 {
+		k := pick(r, checkKinds)
+		if k == "fail" && r.Intn(2) == 0 {
+			k = "ok"
+		}
+		e.Check = &CallbackJ{Kind: k, N: []int64{0, 1, 100, 512, 50000, -1}[r.Intn(6)]}
+	}
+}
+
+// optionCases: the systematic part — each callback kind against an adjustment with / without a
+// resources section, with an earlier (CDI) and a later (block-I/O class, mount propagation)
+// failure, the filter letting through / dropping / refusing set and removal entries.
+func optionCases() []namedIn {
+	var out []namedIn
+	add := func(id string, spec SpecJ, a AdjJ, e ExtJ) {
+		out = append(out, namedIn{"opt-" + id, In{Kind: "opts", Spec: spec, Adjust: a, Ext: e, Runs: 10}})
+	}
+	i64 := func(v int64) *int64 { return &v }
+	u64 := func(v uint64) *uint64 { return &v }
+	full := func() AdjJ {
+		a := emptyAdj()
+		a.Annotations = map[string]string{"k0": "new", "-k1": "", "k3": "v3", "internal/x": "1"}
+		a.Mounts = []MountJ{{"/c", "bind", "/src/0", []string{"ro"}}}
+		a.Env = []KVJ{{"QUX", "1"}}
+		a.Rlimits = []RlimitJ{{"RLIMIT_NOFILE", 10, 5}}
+		a.Linux = &LinuxJ{Devices: []DeviceJ{}, Resources: &ResJ{Hugepages: []HugeJ{{"1GB", 2}},
+			CPU: &CPUJ{Shares: u64(2048)}, Pids: i64(77), Unified: map[string]string{"cpu.weight": "100"}}}
+		return a
+	}
+	for _, fk := range []string{"", "nop", "drop", "reject"} {
+		for _, fa := range []string{"k", "-", "internal/", "zzz"} {
+			if fk == "" && fa != "k" {
+				continue
+			}
+			for _, ck := range []string{"", "ok", "fail", "failPidsGt", "capShares", "setPids", "clearUnified"} {
+				if fk == "" && ck == "" {
+					continue
+				}
+				e := defaultExt()
+				if fk != "" {
+					e.Filter = &CallbackJ{Kind: fk, Arg: fa}
+				}
+				if ck != "" {
+					e.Check = &CallbackJ{Kind: ck, N: 512}
+				}
+				id := fmt.Sprintf("%s-%s-%s", fk, strings.ReplaceAll(fa, "/", "_"), ck)
+				add("full-"+id, baseSpec(), full(), e)
+				if fa == "k" {
+					// no resources section at all / a Linux section without resources / an empty resources section
+					a1 := full()
+					a1.Linux = nil
+					add("nolinux-"+id, baseSpec(), a1, e)
+					a2 := full()
+					a2.Linux.Resources = nil
+					a2.Linux.Oom = i64(5)
+					add("nores-"+id, baseSpec(), a2, e)
+					a3 := full()
+					a3.Linux.Resources = &ResJ{Hugepages: []HugeJ{}}
+					add("emptyres-"+id, baseSpec(), a3, e)
+					add("emptyres-emptyspec-"+id, SpecJ{Shape: ShapeJ{true, true, true, true, true, false}}, a3, e)
+					// an earlier failure (CDI): the checker must not run; a later one (block-I/O class): it has run
+					a4 := full()
+					a4.CDI = []string{"vendor.com/dev=broken"}
+					add("cdifail-"+id, baseSpec(), a4, e)
+					a5 := full()
+					a5.Linux.Resources.Blockio = pstr("no-such-class")
+					add("biofail-"+id, baseSpec(), a5, e)
+					a6 := full()
+					a6.Linux.Resources.Blockio = pstr("gold")
+					a6.Linux.Resources.Rdt = pstr("silver")
+					add("classes-"+id, baseSpec(), a6, e)
+					// thresholds of the checkers
+					a7 := full()
+					a7.Linux.Resources.Pids = i64(512)
+					a7.Linux.Resources.CPU.Shares = u64(512)
+					add("at-threshold-"+id, baseSpec(), a7, e)
+					a8 := full()
+					a8.Linux.Resources.Pids = nil
+					a8.Linux.Resources.CPU = nil
+					sp := baseSpec()
+					sp.Pids = i64(9999)
+					sp.CPU.Shares = u64(4096)
+					add("original-values-"+id, sp, a8, e)
+				}
+			}
+		}
 	}
 	return out
 }
